@@ -271,7 +271,7 @@ CONFIGS = {
 def _build_configs(names):
     from vmc.drive import cli
 
-    glyphs = sources()
+    glyphs = sources(stick=True)  # a shape sticks out of the viewBox: clip_to_viewbox is observable in every font of a pair
     srcs_text = [(f"emoji_u{'_'.join('%04x' % c for c in g.cps)}.svg", g.svg()) for g in glyphs]
     cfgs = [dict(CONFIGS[n], output_file=f"{n}.ttf") for n in names]
     w = cli.mkscratch("c20p")
